@@ -332,6 +332,11 @@ def units(tier):
             us.append(IntShift(N, (2,), (), cplx=True, crop=(N == 2), as_quantity="us*kHz" if N == 2 else "s*MHz"))
         if N == 4:
             us.append(IntShift(N, (), (), cplx=True, crop=True, as_quantity="us*Hz"))
+    if tier == "quick":
+        # real-valued data at an odd length (a half-spectrum round trip must not lose the last sample)
+        us.append(IntShift(3, (), (), cplx=False, crop=False))
+        us.append(IntShift(3, (2,), (2,), cplx=False, crop=True, t0=False))
+        us.append(IntShift(1, (2,), (), cplx=False, crop=False))
     # (ii) real-valued shifts
     for N in ((2, 4) if tier == "quick" else (1, 2, 4)):
         for ss, sh in (((), ()), ((2,), (2,)), ((2,), ()), ((2,), (1,)), ((2, 2), (2, 1)), ((2, 2), (2,))):
